@@ -323,6 +323,37 @@ def fill_class(fid, loc):
     return "FOther"
 
 
+def table_diff(raw):
+    """Which constructors of the regenerated table differ from Model.Labels.modelled_shapes (read from Labels.v):
+    -> list of short texts; [] when the shapes agree (then something else broke)."""
+    try:
+        text = open(os.path.join(common.COQ, "model", "Labels.v")).read()
+    except OSError:
+        return []
+    body = text[text.find("Definition modelled_shapes"):]
+    body = body[:body.find("].") + 1]
+    model = collections.OrderedDict()
+    for m in re.finditer(r'\("([^"]*)",\s*"([^"]*)",\s*\[([^\]]*)\]\)', body):
+        model[(m.group(1), m.group(2))] = [(a == "P", b) for a, b in re.findall(r"\((P|Sx),\s*(G[A-Za-z]+)\)", m.group(3))]
+    shape = {"LFileGuarded": "GGuarded", "LFileKnown": "GKnown", "LFileStored": "GKnown", "LFileUnwrapped": "GUnwrapped"}
+    table = collections.OrderedDict()
+    made_up = []
+    for short, owner, style, rc, fc, loc, fid in raw:
+        table.setdefault((short, owner), []).append((style == "primary", shape.get(fc, fc)))
+        if rc == "LMadeUp":
+            made_up.append("%s %s: range `%s` is not a node meta / range field" % (short, owner, loc))
+    out = list(made_up)
+    for k in table:
+        if k not in model:
+            out.append("new constructor %s %s with %d label site(s)" % (k[0], k[1], len(table[k])))
+        elif table[k] != model[k]:
+            out.append("%s %s: sources have %s, model has %s" % (k[0], k[1], table[k], model[k]))
+    for k in model:
+        if k not in table:
+            out.append("constructor %s %s of the model has no label site in the sources any more" % k)
+    return out[:8]
+
+
 def coq_str(s):
     return '"' + s.replace('"', '""') + '"'
 
@@ -957,6 +988,7 @@ def write_project(root, p):
     d = os.path.join(root, "p%d" % p["idx"])
     os.makedirs(d, exist_ok=True)
     for rel, text in p["files"].items():
+        os.makedirs(os.path.dirname(os.path.join(d, rel)), exist_ok=True)
         with open(os.path.join(d, rel), "wb") as f:
             f.write(text if isinstance(text, bytes) else text.encode())
     p["dir"] = d
@@ -1030,12 +1062,17 @@ def judge_project(p, out, stats, nontrivial):
         spans = {}
         p["brief_unreliable"] = True
         stats["injections_that_still_parse"] += 1
+        if p.get("inject") == "invalid_token":
+            fails.append({"clause": "construct", "code": "P1000", "why": "a scalar that can start no token of the language (`@`, `#` or a back quote) was "
+                          "put between two tokens outside comments and strings, and no `Invalid token` finding is reported: "
+                          "the text after it was skipped or accepted silently"})
     lexed = {}
     exp_stdout, exp_sarif = [], []
     # files in file-id order (= the order in which they were parsed and are merged)
     order = [os.path.relpath(lib[i][0], p["dir"]) for i in sorted(lib)]
     info_base = {"curve": p.get("curve", "BN254"), "all": spans, "order": order}
     instance_seen = collections.defaultdict(list)       # (rel, code, message, label message) -> [(s, e)]
+    user_defs = None
     for r in out["reports"]:
         stats["reports"] += 1
         stats["code:" + r["id"]] += 1
@@ -1113,16 +1150,17 @@ def judge_project(p, out, stats, nontrivial):
                                             b"\n" in src[s:e], b"\r\n" in src[:s]))
                 else:
                     stats["labels_in_raw_files"] += 1
-        # hypothesis `one_file` of C04_label_range_and_file_of_one_node, on what is visible of it: the labels of one
-        # report of a guarded constructor (every code but the parser's and the merger's) all name one file
+        if not bad_report:
+            fails += judge_names(p, r, lib, stats)
+        # clause one-file (no theorem behind it since the fourth audit): the labels of one report of a guarded constructor
+        # (every code but the parser's and the merger's) all name one file
         if r["id"] not in UNGUARDED_CODES and (r["primary"] or r["secondary"]):
             stats["one_file_hypothesis_evaluated"] += 1
             if len({l["file"] for l in r["primary"] + r["secondary"]}) > 1:
                 stats["one_file_hypothesis_unmet"] += 1
                 fails.append({"clause": "one-file-hypothesis", "code": r["id"], "message": r["message"][:200],
                               "labels": [(l["file"], l["start"], l["end"]) for l in r["primary"] + r["secondary"]],
-                              "why": "hypothesis of C04_label_range_and_file_of_one_node unmet: the labels of one %s report name "
-                                     "several files" % r["id"]})
+                              "why": "the labels of one %s report name several files (every pass anchors its labels in one definition)" % r["id"]})
         # the rendered diagnostic
         if r["render"] is None:
             fails.append({"clause": "render", "code": r["id"], "message": r["message"][:200],
@@ -1142,8 +1180,22 @@ def judge_project(p, out, stats, nontrivial):
             fails.append({"clause": "rendered-header", "code": r["id"], "message": r["message"][:200],
                           "why": "codespan printed %s, recomputed from the original bytes %s" % (shown, loci)})
         users = [lib[f][2] for f in r["pfiles"] if f in lib]
-        if not r["pfiles"] or any(users):
-            exp_stdout.append((SEVERITY[r["level"]], r["id"], r["message"].split("\n")[0], tuple(loci)))
+        analysed = True
+        m = re.match(r"analyzing (?:template|function) '(.*)'$", r.get("stage") or "")
+        if m and not r["pfiles"]:
+            # a label-less finding of an analysis pass (CS0011): the CLI analyses the definitions of the files named on
+            # the command line only, the harness all of them
+            if user_defs is None:
+                user_defs = set()
+                for _, src, user in lib.values():
+                    if user:
+                        user_defs |= set(re.findall(r"\b(?:template|function)\b(?:\s+(?:custom|parallel))*\s+([A-Za-z_$][A-Za-z0-9_$]*)",
+                                                    _strip_comments(src.decode(errors="replace"))))
+            analysed = m.group(1) in user_defs
+            stats["labelless_pass_findings_of_included_only_definitions" if not analysed else "labelless_pass_findings_displayed"] += 1
+        if analysed and (not r["pfiles"] or any(users)):
+            exp_stdout.append((SEVERITY[r["level"]], r["id"], r["message"].split("\n")[0], tuple(loci),
+                               r.get("expect_verbose"), r.get("expect_plain")))
 
             def region(l):
                 path, src, _ = lib[l["file"]]
@@ -1152,6 +1204,92 @@ def judge_project(p, out, stats, nontrivial):
                               tuple(region(l) for l in r["secondary"])))
     fails += judge_instances(p, instance_seen, spans, lib, info_base, stats)
     return fails, exp_stdout, exp_sarif
+
+
+IDENT = re.compile(rb"[A-Za-z_$][A-Za-z0-9_$]*")
+NAME_LIKE = re.compile(r"^[A-Za-z_$][A-Za-z0-9_$]*(\[.*\])*(\.[A-Za-z_$][A-Za-z0-9_$]*(\[.*\])*)*$")
+# names a message may quote that are not names of the program: the prime `p`, the circomlib template the pass is about
+LITERAL_NAMES = {"CS0004": {"p"}, "CS0014": {"LessThan"}, "CS0003": {"p"}}
+
+
+def enclosing_definition_name(src, pos):
+    """name of the last `template` / `function` header that starts before `pos` (comments skipped by the lexer)"""
+    st, _, _ = lex(src)
+    toks = sorted(x for x in st if x <= pos)
+    name = None
+    for i, a in enumerate(toks):
+        m = IDENT.match(src, a)
+        if m and m.group(0) in (b"template", b"function"):
+            for b in toks[i + 1:i + 4]:
+                m2 = IDENT.match(src, b)
+                if m2 and m2.group(0) not in (b"custom", b"parallel"):
+                    name = m2.group(0).decode()
+                    break
+    # the header of the definition the position lies in may start AT pos (T2008: whole definition)
+    return name
+
+
+def judge_names(p, r, lib, stats):
+    """The names a finding QUOTES (fourth audit: label messages were compared nowhere).  Every back-quoted name of a
+    label message must be an identifier of the text under THAT label or the name of the definition the label lies
+    in; every back-quoted name of the report message must be an identifier under one of its labels, the name of
+    that definition, or (CS0018: the output signal of the instantiated template) be declared as an output signal in a
+    file of the project.  Operators (`<--`) must occur under the primary label.  Not judged: P1000 (token
+    lists of the parser), quoted things that are no names (`p/2`, bit sizes)."""
+    if r["id"] == "P1000" or not (r["primary"] or r["secondary"]):
+        return []
+    fails = []
+    texts, defs = [], set()
+    for l in r["primary"] + r["secondary"]:
+        path, src, _ = lib[l["file"]]
+        t = src[l["start"]:l["end"]]
+        ids = {x.decode() for x in IDENT.findall(t)}
+        d = enclosing_definition_name(src, l["start"])
+        texts.append((l, t, ids, d))
+        if d:
+            defs.add(d)
+    literal = LITERAL_NAMES.get(r["id"], set())
+    for l, t, ids, d in texts:
+        quoted = re.findall(r"`([^`]*)`", l["msg"] or "")
+        if r["id"] == "CS0014" and "bits here" in (l["msg"] or ""):
+            quoted = quoted[:1]          # the second quotation is the size expression handed to the Num2Bits
+        for q in quoted:
+            if not NAME_LIKE.match(q):
+                continue
+            stats["quoted_names_judged"] += 1
+            b = base_name(q)
+            if b not in ids and b != d and b not in literal:
+                fails.append({"clause": "quoted-name", "code": r["id"], "message": r["message"][:200],
+                              "label": {k: l[k] for k in ("file", "start", "end", "msg")}, "text": t.decode(errors="replace")[:200],
+                              "why": "the label message quotes `%s`, which is neither an identifier of the text under the label nor "
+                                     "the name of the definition it lies in (%s)" % (q, d)})
+    all_ids = set().union(*[x[2] for x in texts]) if texts else set()
+    prim = [x for x in texts if x[0] in r["primary"]]
+    for q in re.findall(r"`([^`]*)`", r["message"].split("\n")[0]):
+        if q in ("<--", "-->", "<==", "==>", "==="):
+            stats["quoted_names_judged"] += 1
+            def stmt_text(x):
+                # the label and what follows it up to the end of the statement (a tuple target is labelled alone)
+                src = lib[x[0]["file"]][1]
+                semis = [a for a in lex(src)[0] if a >= x[0]["end"] and src[a:a + 1] == b";"]
+                return _strip_comments(src[x[0]["start"]:min(semis) if semis else len(src)].decode(errors="replace"))
+            if prim and not any(("<--" in stmt_text(x) or "-->" in stmt_text(x)) if q in ("<--", "-->") else q in stmt_text(x) for x in prim):
+                fails.append({"clause": "quoted-name", "code": r["id"], "message": r["message"][:200],
+                              "why": "the message quotes the operator `%s`, which does not occur in the statement under the primary label" % q})
+            continue
+        if not NAME_LIKE.match(q):
+            continue
+        stats["quoted_names_judged"] += 1
+        b = base_name(q)
+        if b in all_ids or b in defs or b in literal:
+            continue
+        if r["id"] == "CS0018" and any(re.search(r"signal\b[^;]*\boutput\b[^;]*(?<![A-Za-z0-9_$])" + re.escape(b) + r"(?![A-Za-z0-9_$])",
+                                                 _strip_comments(src.decode(errors="replace"))) for _, src, _ in lib.values()):
+            continue
+        fails.append({"clause": "quoted-name", "code": r["id"], "message": r["message"][:200],
+                      "why": "the message quotes `%s`, which is no identifier under a label of the finding and not the name of "
+                             "the definition a label lies in (%s)" % (q, sorted(defs))})
+    return fails
 
 
 def empty_parens(src, s, e, st, en):
@@ -1187,15 +1325,47 @@ def judge_instances(p, instance_seen, spans, lib, info_base, stats):
     return fails
 
 
+CLI_VARIANTS = {
+    "verbose": [["--verbose"], ["-v"], []],
+    "level": [["-l", "info"], ["-l", "INFO"], ["--level", "info"], ["--level=INFO"]],
+    "sarif": ["--sarif-file", "-s"],
+    "paths": ["absolute", "relative", "dot-relative", "via-subdir"],
+}
+
+
+def choose_cli_variant(rng):
+    """Spellings of the same run (fourth audit: always `--verbose -l info --sarif-file <abs paths>`): short and long
+    options, verbose and non-verbose display, relative argv with the project directory as working directory."""
+    return {"verbose": rng.choice([0, 0, 1, 2, 2]), "level": rng.randrange(4), "sarif": rng.randrange(2),
+            "paths": rng.choice(["absolute", "absolute", "relative", "dot-relative", "via-subdir"]),
+            "curve_short": rng.random() < 0.5, "curve_case": rng.choice(["upper", "lower"])}
+
+
 def run_cli_project(cli, p):
     sarif = os.path.join(p["dir"], "out.sarif")
     try:
         os.remove(sarif)
     except OSError:
         pass
-    argv = [os.path.join(p["dir"], a) for a in p["argv"]]
-    rc, out, err = common.sh([cli, "--verbose", "-l", "info", "--sarif-file", sarif] + p.get("cli_args", []) + argv, timeout=120)
-    return {"rc": rc, "stdout": out, "stderr": err[-2000:], "sarif": e2e.parse_sarif(sarif)}
+    v = p.get("cli_variant") or {"verbose": 0, "level": 0, "sarif": 0, "paths": "absolute"}
+    cwd = None
+    if v["paths"] == "absolute":
+        argv = [os.path.join(p["dir"], a) for a in p["argv"]]
+    else:
+        cwd = p["dir"]
+        os.makedirs(os.path.join(p["dir"], "sub"), exist_ok=True)
+        pre = {"relative": "", "dot-relative": "./", "via-subdir": "sub/../"}[v["paths"]]
+        argv = [pre + a for a in p["argv"]]
+    opts = list(CLI_VARIANTS["verbose"][v["verbose"]]) + list(CLI_VARIANTS["level"][v["level"]]) + \
+        [CLI_VARIANTS["sarif"][v["sarif"]], sarif if cwd is None or v["sarif"] == 0 else "out.sarif"]
+    for i, lb in enumerate(p.get("libs") or []):
+        opts += ["-L" if (v["level"] + i) % 2 else "--library", lb if cwd is not None else os.path.join(p["dir"], lb)]
+    curve = p.get("curve")
+    if curve and curve != "BN254":
+        opts += ["-c" if v.get("curve_short") else "--curve", curve.lower() if v.get("curve_case") == "lower" else curve]
+    rc, out, err = common.sh([cli] + opts + argv, timeout=120, cwd=cwd)
+    return {"rc": rc, "stdout": out, "stderr": err[-2000:], "sarif": e2e.parse_sarif(sarif), "verbose": bool(CLI_VARIANTS["verbose"][v["verbose"]]),
+            "cmd": opts + argv}
 
 
 def offset_of(src, line, col):
@@ -1282,11 +1452,34 @@ def judge_cli(p, res, exp_stdout, exp_sarif, panicked, stats):
     results = res["sarif"]["results"] if res["sarif"] else []
     if len(results) != len(diags):
         return [{"clause": "sarif-count", "why": "%d findings displayed, %d SARIF results" % (len(diags), len(results))}]
+    verbose = res.get("verbose", True)
+    stats["cli_runs_verbose" if verbose else "cli_runs_plain"] += 1
+    # the BODY of every displayed diagnostic: snippet, underlined ranges, label messages of primary and secondary
+    # labels, notes - compared as text with the rendering of a diagnostic the harness builds from the report's own
+    # labels WITHOUT Report::to_diagnostic (verbose: with the id and the `--allow` hint; plain: without)
+    want = collections.Counter(x[4 if verbose else 5] for x in exp_stdout)
+    for block, n in want.items():
+        if block is None:
+            stats["cli_bodies_without_expectation"] += n
+            continue
+        stats["cli_bodies_compared"] += n
+        # the CLI's output is read in text mode (CR LF and lone CR arrive as LF): the same translation for the expectation
+        block = block.replace("\r\n", "\n").replace("\r", "\n")
+        have = res["stdout"].count(block)
+        if have < n:
+            head = block.split("\n")[0]
+            shown = [b for b in res["stdout"].split("\n\n") if head in b]
+            fails.append({"clause": "displayed-body", "why": "the terminal does not show this finding as its labels say (%d of %d "
+                          "times; %s mode): header, source lines, underlined ranges and messages of all primary and secondary "
+                          "labels, notes" % (have, n, "verbose" if verbose else "non-verbose"),
+                          "expected": block[:1500], "displayed_with_that_header": [b[:1500] for b in shown[:2]]})
+            break
     pool = collections.Counter(exp_sarif)
     for ev, r in zip(diags, results):
         t = r["tuple"]
         # the terminal and the SARIF file show the same finding at the same place
-        if (ev[2], ev[3]) != (t[1], (t[2] or "").split("\n")[0]) or list(ev[4]) != sarif_loci(t):
+        if (verbose and ev[2] != t[1]) or (not verbose and ev[2] is not None) or ev[3] != (t[2] or "").split("\n")[0] \
+                or list(ev[4]) != sarif_loci(t):
             fails.append({"clause": "displayed-line-column", "code": t[1], "message": (t[2] or "")[:200],
                           "why": "the terminal shows %s %s at %s, the SARIF result %s has its first locations at %s" % (
                               ev[2], ev[3][:60], list(ev[4]), t[1], sarif_loci(t))})
@@ -1335,6 +1528,8 @@ def evaluate(projects, harness, cli, root, stats, nontrivial):
             prov = {"bad_input": pv[:200]}
         stats["projects"] += 1
         stats["style:" + p.get("style", "raw")] += 1
+        for k, v in (p.get("cli_variant") or {}).items():
+            stats["cli_variant:%s=%s" % (k, v)] += 1
         if p.get("inject"):
             stats["inject:" + p["inject"]] += 1
         if p.get("exotic"):
@@ -1368,7 +1563,7 @@ def evaluate(projects, harness, cli, root, stats, nontrivial):
 def project_replay(p):
     return {"files": {k: (v.decode(errors="surrogateescape") if isinstance(v, bytes) else v) for k, v in p["files"].items()},
             "argv": p["argv"], "libs": p.get("libs", []), "curve": p.get("curve", "BN254"), "style": p.get("style"), "exotic": p.get("exotic"),
-            "inject": p.get("inject"), "spans": p.get("brief"), "origin": p.get("origin")}
+            "inject": p.get("inject"), "spans": p.get("brief"), "origin": p.get("origin"), "cli_variant": p.get("cli_variant")}
 
 
 def load_corpus():
@@ -1414,7 +1609,7 @@ def run(ctx, proofs):
                     (any(f in ("instances-sign", "instances-n2b", "instances-b2n", "instances-lt_inputs") for f in p["features"])
                      and ctx.rng.random() < 0.4):
                 p["curve"] = ctx.rng.choice(["BLS12_381", "GOLDILOCKS"])
-                p["cli_args"] = ["--curve", p["curve"]]
+            p["cli_variant"] = choose_cli_variant(ctx.rng)
             p["origin"] = "generated #%d" % done
             for f in p["features"]:
                 features[f] += 1
@@ -1487,9 +1682,14 @@ def run(ctx, proofs):
                       {"broken": "lib/props/C04.py judge_statement_anchors (degenerate run)", "evaluations": claimed_evals},
                       no_input=True)
     if not failing and proofs["failures"]:
-        ctx.violation("proof obligations of C04 no longer check: " + "; ".join(proofs["failures"])[:600],
+        diff = table_diff(getattr(ctx, "label_sites_raw", None) or [])
+        ctx.violation("proof obligations of C04 no longer check: " + "; ".join(proofs["failures"])[:600] +
+                      (" -- label-site table out of date with Model.Labels.modelled_shapes: %s; every dynamic clause held on the %d "
+                       "labels of this run (no failing input exists for a reader that is merely out of date: update "
+                       "modelled_shapes / the constructor in Model.Labels)" % (diff, stats["labels"]) if diff else ""),
                       {"broken": "props/C04.v (or the regenerated coq/gen/LabelSites.v: a label constructor of the "
                                  "anchored sources changed how it obtains its range or its file id)",
+                       "table_vs_model": diff, "labels_checked_dynamically": stats["labels"],
                        "failures": proofs["failures"]}, no_input=True)
 
     codes = sorted(k[5:] for k in stats if k.startswith("code:"))
@@ -1558,10 +1758,19 @@ def run(ctx, proofs):
                     "scalars over {a, LF, CR, e-acute}, fixed edge cases (empty, only newlines, no final newline, empty last "
                     "line, lone CR, BOM, U+2028, 4-byte scalars), random texts over 18 scalars, windows of generated files"},
         "failures_by_clause": dict(by_clause),
+        "displayed_body_clause": {
+            "cli_runs_verbose": stats["cli_runs_verbose"], "cli_runs_non_verbose": stats["cli_runs_plain"],
+            "bodies_compared": stats["cli_bodies_compared"], "bodies_without_expectation": stats["cli_bodies_without_expectation"],
+            "cli_variants": {k[12:]: v for k, v in sorted(stats.items()) if k.startswith("cli_variant:")},
+            "note": "every finding the CLI displays must appear on standard output exactly as codespan renders a diagnostic that the "
+                    "harness builds from the report's own primary and secondary labels, notes, documentation URL (and id + --allow "
+                    "hint in verbose mode) WITHOUT Report::to_diagnostic: source lines, underlined ranges, label messages, notes"},
+        "quoted_names_clause": {"names_judged": stats["quoted_names_judged"],
+                                "note": "back-quoted names of label messages / report messages must be identifiers under the label(s) "
+                                        "or the name of the enclosing definition (see judge_names)"},
         "one_file_hypothesis": {"reports_evaluated": stats["one_file_hypothesis_evaluated"], "unmet": stats["one_file_hypothesis_unmet"],
-                                "note": "hypothesis of C04_label_range_and_file_of_one_node (the nodes handed to one constructor call "
-                                        "lie in one file), evaluated on its visible part: all labels of one report of a guarded "
-                                        "constructor name one file; unmet = failure with the project as input"},
+                                "note": "oracle clause (the theorem it used to be the hypothesis of was definition-grade and is a lemma now): "
+                                        "all labels of one report of a guarded constructor name one file; unmet = failure with input"},
         "instance_level_construct_clause": {
             "codes": sorted(INSTANCE_CODES), "groups_checked_for_duplicate_anchor": stats["instance_groups"],
             "labels_on_an_empty_parameter_list": stats["labels_on_an_empty_parameter_list"],
@@ -1653,8 +1862,6 @@ def replay(ctx, rep):
     p["files"] = {k: v.encode("utf-8", "surrogateescape") for k, v in inp["files"].items()}
     p["brief"] = inp.get("spans") or {}
     p["spans"] = {}
-    if p.get("curve") and p["curve"] != "BN254":
-        p["cli_args"] = ["--curve", p["curve"]]
     root = os.path.join(ctx.work, "replay")
     shutil.rmtree(root, ignore_errors=True)
     os.makedirs(root, exist_ok=True)
